@@ -286,6 +286,43 @@ func runC27x(tb stat.TB, c c27xCase) {
 		stat.Violate(tb, id, check, "registry-differs-from-model-after-changes", c, "after all changes the registry is %q, the model %q", got, want)
 		return
 	}
+	// ---- several first registrations of one key at once (API callers and SET requests from loopback): the map has
+	// one entry per key whoever wins; one UNSET removes it
+	for b := 0; b < 3; b++ {
+		k := pmKey{300000 + uint32(b), 1, 6}
+		var bw sync.WaitGroup
+		go2 := make(chan struct{})
+		for g := 0; g < 2+c.Readers; g++ {
+			bw.Add(1)
+			go func(g int) {
+				defer bw.Done()
+				<-go2
+				port := uint32(4000 + g)
+				if g%2 == 0 {
+					pm.RegisterService(k.prog, k.vers, k.prot, port)
+				} else {
+					pm.VerifHandleCall(nfsx.Call(uint32(50000+g), nfsx.ProgPmap, 2, nfsx.PmapSet, nfsx.AuthNone(), nfsx.AuthNone(), nfsx.ArgsPmap(nfsx.Mapping{Prog: k.prog, Vers: k.vers, Prot: k.prot, Port: port})), addr)
+				}
+			}(g)
+		}
+		close(go2)
+		bw.Wait()
+		cnt := 0
+		for _, e := range pm.GetMappings() {
+			if e.Program == k.prog && e.Version == k.vers && e.Protocol == k.prot {
+				cnt++
+			}
+		}
+		if cnt != 1 {
+			stat.Violate(tb, id, check, "key-registered-more-than-once", c, "%d callers registered (program %d, version %d, tcp) for the first time at once: the registry now holds %d entries for that key", 2+c.Readers, k.prog, k.vers, cnt)
+			return
+		}
+		pm.UnregisterService(k.prog, k.vers, k.prot)
+		if p := pm.GetPort(k.prog, k.vers, k.prot); p != 0 {
+			stat.Violate(tb, id, check, "unset-leaves-registration-behind", c, "after one UnregisterService of (program %d, version %d, tcp) GetPort still answers %d", k.prog, k.vers, p)
+			return
+		}
+	}
 	stat.Label("replies_judged", replies.Load())
 	stat.Label("replies_overlapping_a_change", overlapped.Load())
 	stat.Case(c, overlapped.Load() > 0)
